@@ -10,7 +10,13 @@ Core Lean only (no Mathlib).
 
 namespace Ds.Prov
 
-deriving instance DecidableEq for Except
+/-- equality of query results is decidable (used by the `decide` examples) -/
+instance decEqExcept {α : Type} [DecidableEq α] : DecidableEq (Except Err α)
+  | .ok a, .ok b => if h : a = b then isTrue (by rw [h]) else isFalse (fun h' => by cases h'; exact h rfl)
+  | .error a, .error b =>
+    if h : a = b then isTrue (by rw [h]) else isFalse (fun h' => by cases h'; exact h rfl)
+  | .ok _, .error _ => isFalse (fun h => by cases h)
+  | .error _, .ok _ => isFalse (fun h => by cases h)
 
 /-! ## `mapM` in `Except` -/
 
@@ -75,6 +81,12 @@ def conjSem (a : List Nat) (c : Conj) : Bool := c.any (· != padLit) && c.all (l
 
 /-- truth value of a padded stored row under the assignment `a` (candidate index per unit) -/
 def rowSem (a : List Nat) (r : Row) : Bool := r.any (conjSem a)
+
+/-- `rowSem` in words: some disjunct that is not pure padding has all its non-padding literals satisfied -/
+theorem rowSem_iff (a : List Nat) (r : Row) :
+    rowSem a r = true ↔
+      ∃ c ∈ r, (∃ l ∈ c, l ≠ padLit) ∧ ∀ l ∈ c, l = padLit ∨ a.getD l.1.toNat 0 = l.2.toNat := by
+  simp [rowSem, conjSem, litSem]
 
 /-- a literal is exactly padding or a proper literal over the unit set -/
 def LitOK (nUnits : Nat) (l : Lit) : Prop := l = padLit ∨ (0 ≤ l.1 ∧ l.1 < nUnits ∧ 0 ≤ l.2)
@@ -594,20 +606,20 @@ theorem conjFromData_litData (c : List (Nat × Nat)) : conjFromData (c.map Expr.
   simp [Expr.litData]
 
 /-- the mask `from_data` uses to drop disjuncts -/
-def allPad (c : Conj) : Bool := c.all (fun l => l.1 == -1 && l.2 == -1)
+def fdPad (c : Conj) : Bool := c.all (fun l => l.1 == -1 && l.2 == -1)
 
-theorem allPad_append_pad (c : Conj) (k : Nat) : allPad (c ++ List.replicate k padLit) = allPad c := by
-  simp [allPad, List.all_append, padLit]
+theorem fdPad_append_pad (c : Conj) (k : Nat) : fdPad (c ++ List.replicate k padLit) = fdPad c := by
+  simp [fdPad, List.all_append, padLit]
 
-theorem allPad_litData (c : List (Nat × Nat)) (hc : c ≠ []) : allPad (c.map Expr.litData) = false := by
+theorem fdPad_litData (c : List (Nat × Nat)) (hc : c ≠ []) : fdPad (c.map Expr.litData) = false := by
   cases c with
   | nil => exact absurd rfl hc
   | cons x xs =>
     have : ¬ ((x.1 : Int) = -1) := by omega
-    simp [allPad, Expr.litData, this]
+    simp [fdPad, Expr.litData, this]
 
-theorem allPad_replicate (n : Nat) : allPad (List.replicate n padLit) = true := by
-  simp [allPad, padLit]
+theorem fdPad_replicate (n : Nat) : fdPad (List.replicate n padLit) = true := by
+  simp [fdPad, padLit]
 
 /-- how one conjunction of an expression is stored: padded to the expression's width, then to the store's -/
 def storedConj (w n : Nat) (c : List (Nat × Nat)) : Conj :=
@@ -622,27 +634,27 @@ theorem conjFromData_stored (w n : Nat) (c : List (Nat × Nat)) : conjFromData (
   simp only [storedConj, padConj, Expr.padTo]
   rw [conjFromData_append_pad, conjFromData_append_pad, conjFromData_litData]
 
-theorem allPad_stored (w n : Nat) (c : List (Nat × Nat)) (hc : c ≠ []) : allPad (storedConj w n c) = false := by
+theorem fdPad_stored (w n : Nat) (c : List (Nat × Nat)) (hc : c ≠ []) : fdPad (storedConj w n c) = false := by
   simp only [storedConj, padConj, Expr.padTo]
-  rw [allPad_append_pad, allPad_append_pad, allPad_litData c hc]
+  rw [fdPad_append_pad, fdPad_append_pad, fdPad_litData c hc]
 
 theorem exprFromData_stored (e : Expr) (he : e.Proper) (d n : Nat) :
     exprFromData (padRow e.data3 d n) = .ok (Expr.disj e.dnf) := by
   have hf : (padRow e.data3 d n).filter (fun c => !(c.all (fun l => l.1 == -1 && l.2 == -1))) =
       e.dnf.map (storedConj e.width n) := by
     rw [padRow_data3, List.filter_append]
-    have h1 : (e.dnf.map (storedConj e.width n)).filter (fun c => !(allPad c)) =
+    have h1 : (e.dnf.map (storedConj e.width n)).filter (fun c => !(fdPad c)) =
         e.dnf.map (storedConj e.width n) := by
       rw [List.filter_eq_self]
       intro c hc
       obtain ⟨c', hc', rfl⟩ := List.mem_map.mp hc
-      simp [allPad_stored _ _ c' (he.2 c' hc')]
+      simp [fdPad_stored _ _ c' (he.2 c' hc')]
     have h2 : (List.replicate (d - e.dnf.length) (List.replicate n padLit)).filter
-        (fun c => !(allPad c)) = [] := by
+        (fun c => !(fdPad c)) = [] := by
       rw [List.filter_eq_nil_iff]
       intro c hc
-      rw [(List.mem_replicate.mp hc).2, allPad_replicate]; simp
-    simp only [allPad] at h1 h2
+      rw [(List.mem_replicate.mp hc).2, fdPad_replicate]; simp
+    simp only [fdPad] at h1 h2
     rw [h1, h2, List.append_nil]
   have hm : (e.dnf.map (storedConj e.width n)).map conjFromData = e.dnf := by
     rw [List.map_map]
@@ -760,6 +772,33 @@ theorem map_delManyL {α β : Type} (f : α → β) (l : List α) (idx : List Na
   simp only [delManyL, List.map_filterMap, List.length_map]
   congr 1; funext i
   split <;> simp
+
+theorem length_filterMap_of_isSome {α β : Type} (xs : List α) (f : α → Option β) (g : α → Bool)
+    (h : ∀ x ∈ xs, (f x).isSome = g x) : (xs.filterMap f).length = (xs.filter g).length := by
+  induction xs with
+  | nil => rfl
+  | cons x xs ih =>
+    have hx := h x (by simp)
+    have ih' := ih (fun y hy => h y (by simp [hy]))
+    rw [List.filterMap_cons, List.filter_cons]
+    cases hfx : f x with
+    | none => simp [hfx] at hx; simp [hx, ih']
+    | some y => simp [hfx] at hx; simp [hx, ih']
+
+theorem length_selectL {α : Type} (l : List α) (idx : List Nat) :
+    (selectL l idx).length = (idx.filter (· < l.length)).length := by
+  apply length_filterMap_of_isSome
+  intro i _
+  by_cases h : i < l.length <;> simp [h]
+
+theorem length_delManyL {α : Type} (l : List α) (idx : List Nat) :
+    (delManyL l idx).length = ((List.range l.length).filter (fun j => !idx.contains j)).length := by
+  apply length_filterMap_of_isSome
+  intro i hi
+  have hi' : i < l.length := List.mem_range.mp hi
+  by_cases h : idx.contains i
+  · simp only [h, ↓reduceIte]; rfl
+  · simp only [h]; simp [hi']
 
 theorem mem_selectL {α : Type} {l : List α} {idx : List Nat} {x : α} (h : x ∈ selectL l idx) : x ∈ l := by
   simp only [selectL, List.mem_filterMap] at h
@@ -1202,11 +1241,6 @@ theorem wellPadded_ofGroups (ids : List Int) (k : Nat) (h : ∀ g ∈ ids, g ≠
 
 /-! ## join -/
 
-/-- no stored disjunct is pure padding (e.g. all rows have the same number of disjuncts) -/
-def NoPadDisj (p : P) : Prop := ∀ r ∈ p.data, ∀ c ∈ r, c.any (· != padLit) = true
-
-instance (p : P) : Decidable (NoPadDisj p) := by unfold NoPadDisj; infer_instance
-
 def shiftLit (k : Nat) (l : Lit) : Lit := if l.1 == -1 then l else (l.1 + k, l.2)
 
 theorem shiftConj_eq (k : Nat) (c : Conj) : shiftConj k c = c.map (shiftLit k) := rfl
@@ -1275,30 +1309,66 @@ theorem conjSem_join {n u n' u' : Nat} {c c' : Conj} (hc : ConjOK n u c) (hc' : 
   rw [any_congr_mem (l := c') (fun l hl => nonpad_shift (hc'.2 l hl) a.length)]
   rw [all_congr_mem (l := c') (fun l hl => litSem_shift (hc'.2 l hl) a b)]
 
+theorem allPad_eq_of_ok {n u : Nat} {c : Conj} (hc : ConjOK n u c) :
+    allPad c = !(c.any (· != padLit)) := by
+  unfold allPad
+  rw [all_congr_mem (fun l hl => isPad_iff_of_ok (hc.2 l hl))]
+  simp [List.all_eq_not_any_not, bne]
+
+/-- one disjunct of a joined row -/
+def joinConj (u nn : Nat) (c c' : Conj) : Conj :=
+  if allPad c || allPad c' then List.replicate nn padLit else c ++ shiftConj u c'
+
 /-- one joined row -/
-def joinRow (u : Nat) (r s : Row) : Row := r.flatMap (fun c => s.map (fun c' => c ++ shiftConj u c'))
+def joinRow (u nn : Nat) (r s : Row) : Row := r.flatMap (fun c => s.map (fun c' => joinConj u nn c c'))
+
+theorem conjSem_joinConj {n u n' u' : Nat} {c c' : Conj} (hc : ConjOK n u c) (hc' : ConjOK n' u' c')
+    (a b : List Nat) (ha : a.length = u) (nn : Nat) :
+    conjSem (a ++ b) (joinConj u nn c c') = (conjSem a c && conjSem b c') := by
+  unfold joinConj
+  rw [allPad_eq_of_ok hc, allPad_eq_of_ok hc']
+  cases h1 : c.any (· != padLit) with
+  | false => simp [conjSem, h1]
+  | true =>
+    cases h2 : c'.any (· != padLit) with
+    | false => simp [conjSem, h2]
+    | true =>
+      simp only [Bool.not_true, Bool.or_self, Bool.false_eq_true, ↓reduceIte]
+      rw [conjSem_join hc hc' a b ha, h1, h2]
+      simp [conjSem, h1, h2]
 
 theorem rowSem_joinRow {d n u d' n' u' : Nat} {r s : Row} (hr : RowOK d n u r) (hs : RowOK d' n' u' s)
-    (hnr : ∀ c ∈ r, c.any (· != padLit) = true) (hns : ∀ c ∈ s, c.any (· != padLit) = true)
-    (a b : List Nat) (ha : a.length = u) :
-    rowSem (a ++ b) (joinRow u r s) = (rowSem a r && rowSem b s) := by
+    (a b : List Nat) (ha : a.length = u) (nn : Nat) :
+    rowSem (a ++ b) (joinRow u nn r s) = (rowSem a r && rowSem b s) := by
   simp only [rowSem, joinRow, List.any_flatMap, List.any_map]
-  have h1 : r.any (fun c => s.any ((conjSem (a ++ b)) ∘ fun c' => c ++ shiftConj u c')) =
+  have h1 : r.any (fun c => s.any ((conjSem (a ++ b)) ∘ fun c' => joinConj u nn c c')) =
       r.any (fun c => conjSem a c && s.any (conjSem b)) := by
     apply any_congr_mem
     intro c hc
     rw [← any_and_left]
     apply any_congr_mem
     intro c' hc'
-    rw [Function.comp, conjSem_join (hr.2 c hc) (hs.2 c' hc') a b ha]
-    simp only [hnr c hc, hns c' hc', conjSem]
-    simp
+    rw [Function.comp, conjSem_joinConj (hr.2 c hc) (hs.2 c' hc') a b ha]
   rw [h1, any_and_right]
 
+theorem conjOK_joinConj {n u n' u' : Nat} {c c' : Conj} (hc : ConjOK n u c) (hc' : ConjOK n' u' c') :
+    ConjOK (n + n') (u + u') (joinConj u (n + n') c c') := by
+  unfold joinConj
+  split
+  · exact conjOK_allpad _ _
+  · constructor
+    · simp [shiftConj_eq, hc.1, hc'.1]
+    · intro l hl
+      rcases List.mem_append.mp hl with h | h
+      · exact litOK_mono (hc.2 l h)
+      · rw [shiftConj_eq] at h
+        obtain ⟨l', hl', rfl⟩ := List.mem_map.mp h
+        exact litOK_shift (hc'.2 l' hl')
+
 theorem rowOK_joinRow {d n u d' n' u' : Nat} {r s : Row} (hr : RowOK d n u r) (hs : RowOK d' n' u' s) :
-    RowOK (d * d') (n + n') (u + u') (joinRow u r s) := by
+    RowOK (d * d') (n + n') (u + u') (joinRow u (n + n') r s) := by
   constructor
-  · have : ∀ (r : Row), (joinRow u r s).length = r.length * s.length := by
+  · have : ∀ (r : Row), (joinRow u (n + n') r s).length = r.length * s.length := by
       intro r
       induction r with
       | nil => simp [joinRow]
@@ -1309,17 +1379,11 @@ theorem rowOK_joinRow {d n u d' n' u' : Nat} {r s : Row} (hr : RowOK d n u r) (h
   · intro cc hcc
     simp only [joinRow, List.mem_flatMap, List.mem_map] at hcc
     obtain ⟨c, hc, c', hc', rfl⟩ := hcc
-    constructor
-    · simp [shiftConj_eq, (hr.2 c hc).1, (hs.2 c' hc').1]
-    · intro l hl
-      rcases List.mem_append.mp hl with h | h
-      · exact litOK_mono ((hr.2 c hc).2 l h)
-      · rw [shiftConj_eq] at h
-        obtain ⟨l', hl', rfl⟩ := List.mem_map.mp h
-        exact litOK_shift ((hs.2 c' hc').2 l' hl')
+    exact conjOK_joinConj (hr.2 c hc) (hs.2 c' hc')
 
 theorem join_data (p q : P) :
-    (join p q).data = p.data.flatMap (fun r => q.data.map (fun s => joinRow p.nUnits r s)) := rfl
+    (join p q).data = p.data.flatMap (fun r => q.data.map (fun s =>
+      joinRow p.nUnits (p.nConj + q.nConj) r s)) := rfl
 
 theorem wellPadded_join {p q : P} (hp : WellPadded p) (hq : WellPadded q) : WellPadded (join p q) := by
   intro rr hrr
@@ -1328,7 +1392,7 @@ theorem wellPadded_join {p q : P} (hp : WellPadded p) (hq : WellPadded q) : Well
   obtain ⟨r, hr, s, hs, rfl⟩ := hrr
   exact rowOK_joinRow (hp r hr) (hq s hs)
 
-theorem query_join {p q : P} (hp : WellPadded p) (hq : WellPadded q) (hnp : NoPadDisj p) (hnq : NoPadDisj q)
+theorem query_join {p q : P} (hp : WellPadded p) (hq : WellPadded q)
     (a b : List Int) (ha : a.length = p.nUnits) (hb : b.length = q.nUnits)
     (hapos : ∀ v ∈ a, 0 ≤ v) (hbpos : ∀ v ∈ b, 0 ≤ v) :
     query (join p q) (a ++ b) =
@@ -1343,6 +1407,6 @@ theorem query_join {p q : P} (hp : WellPadded p) (hq : WellPadded q) (hnp : NoPa
   rw [List.map_map]
   apply List.map_congr_left
   intro s hs
-  exact rowSem_joinRow (hp r hr) (hq s hs) (hnp r hr) (hnq s hs) _ _ (by simp [ha])
+  exact rowSem_joinRow (hp r hr) (hq s hs) _ _ (by simp [ha]) _
 
 end Ds.Prov
